@@ -118,7 +118,7 @@ Proof.
   destruct (n_anc c); cbn; lia.
 Qed.
 
-Lemma get_prefix_shift style g a c top :
+Lemma get_prefix_shift style g a c (top : bool) :
   unpack style = Some g ->
   get_prefix style (length a + (if top then 0 else 1)) (shift a c) = Some (pfx_rel g top c).
 Proof.
@@ -152,7 +152,7 @@ Section Lines.
   Definition lines_rel (g : seg6) (top : bool) (roots : list rt) : list text :=
     map (fun c => pfx_rel g top c ++ rend (n_node c)) (ctxs_l [] roots).
 
-  Lemma lines_of_ctxs style g a top l :
+  Lemma lines_of_ctxs style g a (top : bool) l :
     unpack style = Some g ->
     collect (map (fun c => option_map (fun p => p ++ rend (n_node c))
                                       (get_prefix style (length a + (if top then 0 else 1)) c))
@@ -178,9 +178,9 @@ Section Lines.
     rewrite (get_prefix_spec _ g) by exact U. cbn [n_anc n_last n_node fst snd].
     replace (S (length anc) + 0 <=? length anc) with false by (symmetry; apply Nat.leb_gt; lia).
     cbn [option_map collect app].
-    replace (S (length anc) + 0) with (length (anc ++ [last]) + (if true then 0 else 1))
-      by (rewrite app_length; cbn; lia).
-    rewrite (lines_of_ctxs _ g) by exact U. reflexivity.
+    replace (S (length anc) + 0) with (length (anc ++ [last]) + 0)
+      by (rewrite app_length; cbn [length]; lia).
+    rewrite (lines_of_ctxs style g (anc ++ [last]) true (rch t) U). reflexivity.
   Qed.
 
   Lemma render_node_noself a style g f anc last t :
@@ -189,9 +189,9 @@ Section Lines.
   Proof.
     intros R U. unfold render_lines. rewrite R.
     cbn [start_depth iter_ctxs n_anc n_last n_node fst snd].
-    replace (S (length anc) + 1) with (length (anc ++ [last]) + (if false then 0 else 1))
-      by (rewrite app_length; cbn; lia).
-    apply lines_of_ctxs. exact U.
+    replace (S (length anc) + 1) with (length (anc ++ [last]) + 1)
+      by (rewrite app_length; cbn [length]; lia).
+    exact (lines_of_ctxs style g (anc ++ [last]) false (rch t) U).
   Qed.
 
   Lemma render_root a style g f add_self :
@@ -199,8 +199,7 @@ Section Lines.
     RL f SRoot a add_self = Ok (lines_rel g add_self f).
   Proof.
     intros R U. unfold render_lines. rewrite R. cbn [start_depth iter_ctxs].
-    change (0 + (if add_self then 0 else 1)) with (length (@nil bool) + (if add_self then 0 else 1)).
-    apply lines_of_ctxs. exact U.
+    exact (lines_of_ctxs style g [] add_self f U).
   Qed.
 
   (* ---------------- theorem 1: lines = prefixes zipped with the pre-order ---------------- *)
@@ -255,7 +254,7 @@ Section Lines.
       + unfold node_prefixes, node_branch. rewrite pre_unfold. cbn [length].
         rewrite rel_prefixes_length. reflexivity.
     - rewrite (render_node_noself _ style g) by assumption. split.
-      + apply lines_rel_zip.
+      + unfold node_prefixes, node_branch. rewrite lines_rel_zip. reflexivity.
       + apply rel_prefixes_length.
   Qed.
 
